@@ -37,8 +37,15 @@ def ambiguous_name_error(file_name, location, name, candidate_locations):
     """A name cannot be resolved because there are two or more candidates."""
     result = [error.error(file_name, location, "Ambiguous name '{}'".format(name))]
     for location in sorted(candidate_locations):
+        # The name of a field in an anonymous `bits` is marked as synthetic, so that
+        # a clash with another name is only reported for its alias.  Whether an
+        # ambiguous reference is synthetic only depends on the reference, though.
         result.append(
-            error.note(location.file, location.location, "Possible resolution")
+            error.note(
+                location.file,
+                location.location._replace(is_synthetic=False),
+                "Possible resolution",
+            )
         )
     return result
 
